@@ -45,7 +45,7 @@ def _alarm(_sig, _frm):
 def _worker_init():
     _W["griffe"] = ensure_repo()
     os.walk = _sorted_walk(os.walk)
-    signal.signal(signal.SIGALRM, _alarm)
+    signal.signal(signal.SIGVTALRM, _alarm)   # CPU time of this process: a starved machine is not a hang
 
 
 def _modules(coll, present):
@@ -141,7 +141,7 @@ def run_case(case: dict) -> dict:
         tap = lib.Tap(griffe)
         prev_core = None
         crashed = False
-        signal.setitimer(signal.ITIMER_REAL, 8.0)
+        signal.setitimer(signal.ITIMER_VIRTUAL, 8.0)
         try:
             for op in case["ops"]:
                 rec = {"op": op["op"], "arg": op["arg"], "out": "ok", "unres": [], "iter": 0}
@@ -170,7 +170,15 @@ def run_case(case: dict) -> dict:
                     now = (core(coll, present), rec["unres"])
                     if prev_core is not None and prev_core != now:
                         which = "unresolved-set" if prev_core[0] == now[0] else "state"
-                        out["bad"].append(({"clause": "fixpoint", "what": which}, f"a second resolve_aliases() changed the {which}: {prev_core[1]} -> {now[1]}"))
+                        change, detail = "other", ""
+                        if which == "state":
+                            diffs = [(m, a, b) for m in now[0] for a, b in zip(prev_core[0][m]["members"], now[0][m]["members"]) if a != b]
+                            same_shape = all(len(prev_core[0][m]["members"]) == len(now[0][m]["members"]) and prev_core[0][m]["exports"] == now[0][m]["exports"] for m in now[0])
+                            if same_shape and diffs and all(a[:2] == b[:2] and a[2] == lib.NIL and b[2] != lib.NIL for _, a, b in diffs):
+                                change = "alias-bound-by-second-call"
+                                detail = ", ".join(f"{m}.{a[0]}" for m, a, _ in diffs)
+                        out["bad"].append(({"clause": "fixpoint", "what": which, "change": change},
+                                           f"a second resolve_aliases() changed the {which} ({change} {detail}): unresolved {prev_core[1]} -> {now[1]}"))
                     prev_core = now
             tap.close()
             out["trace"] = tap.events
@@ -197,9 +205,9 @@ def run_case(case: dict) -> dict:
                     if sig["clause"] == "passed-flag":
                         out["bad"].append((sig, what))
         except Hang:
-            out["bad"].append(({"clause": "termination", "during": out["ops"][-1]["op"] if out["ops"] else "load"}, "no answer within 8 s (hang)"))
+            out["bad"].append(({"clause": "termination", "during": out["ops"][-1]["op"] if out["ops"] else "load"}, "no answer within 8 s of CPU time (hang)"))
         finally:
-            signal.setitimer(signal.ITIMER_REAL, 0)
+            signal.setitimer(signal.ITIMER_VIRTUAL, 0)
             tap.close()
     return out
 
@@ -226,7 +234,7 @@ def evaluate(run: Run, case: dict, res: dict, stats: dict):
         if k in seen:
             continue
         seen.add(k)
-        run.violation(sig, f"{text}: {what}", {"family": case["family"], "prog": case["prog"], "ops": case["ops"], "sched": case.get("sched", "std")})
+        run.violation(sig, f"{text}: {what}", case)
     if res["bad"]:
         stats["violating"] += 1
     if len(run.samples) < 4 and (res["bad"] or len(run.samples) < 2):
@@ -291,12 +299,17 @@ def replay_all(run: Run, cases: list, workers: int, stats: dict):
                 evaluate(run, case, res, stats)
 
 
-# family -> (MaxTotal, Sched, MaxOps)
+# families of each tier; statement bounds, schedules and MaxOps of every family: Loader.tla (MaxTotal, Sched, MaxOps)
 TIERS = {
-    "quick": {"graph-q": (2, "std", 5), "wild-q": (3, "std", 3), "retarget-q": (5, "std", 3), "fine": (2, "free", 3)},
-    "thorough": {"graph-q": (3, "std", 5), "graph": (2, "std", 5), "wild": (4, "std", 3), "retarget": (6, "std", 3), "fine": (3, "free", 4)},
+    "quick": ["graph-q", "wild-q", "retarget-q", "fine"],
+    "thorough": ["graph-q", "wild", "retarget", "fine"],
 }
-LIVE = {"quick": ("fine", 2, 4), "thorough": ("fine", 3, 5)}
+PRESENT = {"graph-q": ["p", "p.a", "p.b", "q"], "graph": ["p", "p.a", "p.b", "q"], "fine": ["p", "p.a", "p.b", "q"],
+           "wild": ["p", "p.a", "p.b"], "wild-q": ["p", "p.a", "p.b"], "retarget": ["p", "p.a", "p.b"], "retarget-q": ["p", "p.a", "p.b"]}
+
+
+def fam_set(fams) -> str:
+    return ", ".join(f'"{f}"' for f in fams)
 
 
 def main(tier: str, replay: str | None = None):
@@ -310,60 +323,63 @@ def main(tier: str, replay: str | None = None):
     if replay:
         with open(replay) as fh:
             rec = json.load(fh)
-        c = rec["case"]
+        c = rec["case"]          # the complete behaviour record TLC emitted (program, schedule, model outcomes and projection)
         print(rec["what"])
-        fam = c["family"]
-        total = sum(len(e["stmts"]) for e in c["prog"])
-        res = tlc.must(tlc.run("Loader", "Loader_c06.cfg", workers=2, timeout=3000, constants={"FAMILY": fam, "DOMAIN": "all", "GEN": "TRUE", "TOTAL": total, "TRACE": "TRUE", "OPS": max(3, len(c["ops"])), "SCHED": c.get("sched", "std")}))
-        run.add_tlc(res)
-        want = [(o["op"], o["arg"]) for o in c["ops"]]
-        match = [x for x in res.cases if x["prog"] == c["prog"] and [(o["op"], o["arg"]) for o in x["ops"]] == want]
-        if not match:
-            die("C06 replay: TLC did not regenerate the stored behaviour")
-        replay_all(run, match[:1], 1, stats)
+        replay_all(run, [c], 1, stats)
         run.extra["stats"] = stats
+        run.states = run.transitions = 1
         run.finish()
     fams = TIERS[tier]
-    jobs = {}
     t0 = time.time()
-    with ThreadPoolExecutor(max_workers=12) as pool:
-        for fam, (total, sched, ops) in fams.items():
-            jobs["gen", fam] = pool.submit(tlc.run, "Loader", "Loader_c06.cfg", workers=3 if tier == "quick" else 4, timeout=6000, heap="6g",
-                                           constants={"FAMILY": fam, "DOMAIN": "all", "GEN": "TRUE", "TOTAL": total, "TRACE": "TRUE", "OPS": ops, "SCHED": sched})
-        dfam = "wild-q" if tier == "quick" else "wild"
-        jobs["defect"] = pool.submit(tlc.run, "Loader", "Loader_c06.cfg", workers=2, timeout=6000, heap="4g", dump_trace=True,
-                                     constants={"FAMILY": dfam, "DOMAIN": "defect", "GEN": "FALSE", "TOTAL": fams[dfam][0], "TRACE": "FALSE", "OPS": 3, "SCHED": "std"})
-        lf, lt, lo = LIVE[tier]
-        jobs["live"] = pool.submit(tlc.run, "Loader", "Loader_c06_live.cfg", workers=2, timeout=6000, heap="6g",
-                                   constants={"FAMILY": lf, "TOTAL": lt, "OPS": lo})
+    common = {"FAMILIES": fam_set(fams), "SCALE": tier, "CAP": 0}
+    with ThreadPoolExecutor(max_workers=3) as pool:
+        jgen = pool.submit(tlc.run, "Loader", "Loader_c06.cfg", workers=8 if tier == "quick" else 12, timeout=6000, heap="8g",
+                           constants=dict(common, DOMAIN="all", GEN="TRUE", TRACE="TRUE"))
+        jdef = pool.submit(tlc.run, "Loader", "Loader_c06.cfg", workers=2, timeout=6000, heap="4g", dump_trace=True,
+                           constants=dict(common, DOMAIN="defect", GEN="FALSE", TRACE="FALSE"))
+        jlive = pool.submit(tlc.run, "Loader", "Loader_c06_live.cfg", workers=3, timeout=6000, heap="6g",
+                            constants={"FAMILIES": fam_set(["fine"]), "SCALE": tier, "CAP": 2})
     model = {}
-    cases = []
-    for fam, (total, sched, ops) in fams.items():
-        res = tlc.must(jobs["gen", fam].result(), allow_violations=True)
-        run.add_tlc(res)
-        model[fam] = res.violated
-        if res.violated:
-            print(res.tail)
-            die(f"C06: Loader.tla violates {res.violated} on a program of family {fam} that matches no recorded defect pattern: replay it and either "
-                "record the pattern or fix the model")
-        for c in res.cases:
-            c["sched"] = sched
-        cases += res.cases
-    res = tlc.must(jobs["defect"].result(), allow_violations=True)
+    res = tlc.must(jgen.result(), allow_violations=True)
+    run.add_tlc(res)
+    model["claimed"] = res.violated
+    if res.violated:
+        print(res.tail)
+        die(f"C06: Loader.tla violates {res.violated} on a program that matches no recorded defect pattern: replay it and either "
+            "record the pattern or fix the model")
+    cases = res.cases
+    for c in cases:
+        c["sched"] = "free" if c["family"] == "fine" else "std"
+        c["scale"] = tier
+    res = tlc.must(jdef.result(), allow_violations=True)
     run.add_tlc(res)
     model["defect-domain"] = res.violated
     if res.trace:
         last = res.trace[-1]
-        prog = [{"m": m, "stmts": last["prog"][m]} for m in WALK if m in ("p", "p.a", "p.b")]
-        run.note(f"defect domain: TLC exhibits {res.violated} on [{lib.prog_text(prog)}] after {[o['op'] for o in last['ops']]}")
-    res = tlc.must(jobs["live"].result(), allow_violations=True)
+        prog = [{"m": m, "stmts": last["prog"][m]} for m in PRESENT[last["Family"]]]
+        run.note(f"defect domain: TLC exhibits {res.violated} on [{lib.prog_text(prog)}] after {[o['op'] for o in last['ops']]} (family {last['Family']})")
+    res = tlc.must(jlive.result(), allow_violations=True)
     run.add_tlc(res)
     model["liveness"] = res.violated
     if res.violated:
         print(res.tail)
         die(f"C06: termination / safety violated on the unconstrained instance: {res.violated}")
+    fcount = {}
+    for c in cases:
+        fcount[c["family"]] = fcount.get(c["family"], 0) + 1
+    run.extra["behaviours_per_family"] = fcount
     run.extra["model_verdicts"] = model
     run.extra["tlc_wall_s"] = round(time.time() - t0, 1)
+    # vacuity: every family produced behaviours; load orders, intermediate resolves, all three probe outcomes, model crashes,
+    # partially resolved chains and every tapped function occur
+    frames_seen = {ev[0] for c in cases for ev in c["hist"]}
+    outs = {o for c in cases for p in c["probes"] for o in p["out"]}
+    scheds = {tuple(o["op"][0] + o["arg"] for o in c["ops"]) for c in cases}
+    missing = ([f for f in fams if not fcount.get(f)] + sorted({"LD", "RA", "EE", "EW", "RM", "RT"} - frames_seen) + sorted({"ok", "ARE", "CYC"} - outs)
+               + ([] if any(s[:2] == ("lq", "lp") for s in scheds) else ["q-before-p"]) + ([] if any(s[:3] == ("lp", "r", "lq") for s in scheds) else ["resolve-between-loads"])
+               + ([] if any(c["crashed"] for c in cases) else ["model-crash"]) + ([] if any(not c["aon"] for c in cases) else ["model-partial-chain"]))
+    if missing or len(cases) < (1500 if tier == "quick" else 15000):
+        die(f"C06: vacuous enumeration: missing {missing}, {len(cases)} behaviours")
     rnd = random.Random(SEED)
     cap = 2500 if tier == "quick" else 60000
     run.exhaustive = len(cases) <= cap
@@ -375,6 +391,7 @@ def main(tier: str, replay: str | None = None):
         cases = keep + rnd.sample(rest, min(len(rest), cap - len(keep)))
     replay_all(run, cases, 6 if tier == "quick" else 10, stats)
     run.extra["stats"] = stats
+    run.extra["replay_wall_s"] = round(time.time() - t0 - run.extra["tlc_wall_s"], 1)
     if stats["drift"] or stats["trace_rejected"]:
         run.note(f"model drift on {stats['drift']} behaviour(s), {stats['trace_rejected']} recorded trace(s) rejected")
     run.finish()
